@@ -120,3 +120,168 @@ Definition class_ok (k : class) : bool :=
 
 Definition disc_ok (p : program) : bool := forallb class_ok p.
 
+
+(* ---------------- reporting (not used by any theorem): why does a method fail? ---------------- *)
+Section Explain.
+Variable k : class.
+Variable cur : method.
+
+Definition explain_ev (a : option mode) (e : ev) : string :=
+  match e with
+  | Acquire _ =>
+      if negb (is_none (m_requires cur)) then "lock operation inside a helper that runs under the caller's lock"
+      else "Acquire while this method already holds the mutex (self-deadlock)"
+  | Release _ => "Release without a matching Acquire by the same method (or wrong mode: Unlock after RLock)"
+  | Read f =>
+      if mem f (c_guarded k) then "Read of guarded field " ++ f ++ " without holding the mutex"
+      else "Read of " ++ f ++ ", which is neither guarded nor listed immutable"
+  | Write f =>
+      if mem f (c_guarded k) then
+        (if is_none (eff cur a) then "Write of guarded field " ++ f ++ " without holding the mutex"
+         else "Write of guarded field " ++ f ++ " while holding the mutex in read mode only")
+      else if mem f (c_immutable k) then "Write of field " ++ f ++ " that is listed immutable-after-construction"
+      else "Write of unknown field " ++ f
+  | CallInternal m' =>
+      match find_method (c_methods k) m' with
+      | Some mt =>
+          if m_exported mt then "CallInternal of an exported method " ++ m'
+          else if negb (has_paths mt) then "called method " ++ m' ++ " has no path"
+          else if negb (contract_ok cur mt a) then
+            (match m_requires mt with
+             | None => "helper " ++ m' ++ " locks by itself but is called while the mutex is held (self-deadlock)"
+             | Some _ => "helper " ++ m' ++ " needs the caller to hold the mutex (in a stronger mode) at this call site"
+             end)
+          else "helper " ++ m' ++ " calls a child object and may only run when the thread holds no mutex"
+      | None => "no such method " ++ m'
+      end
+  | CallExported Self m' =>
+      match find_method (c_methods k) m' with
+      | Some mt =>
+          if negb (m_exported mt) then "CallExported of a non-exported method " ++ m'
+          else if negb (is_none (eff cur a)) then
+            "exported method " ++ m' ++ " is called on the same object while its mutex is held: it locks again and blocks forever"
+          else if negb (has_paths mt) then "called method " ++ m' ++ " has no path"
+          else "method " ++ m' ++ " calls a child object and may only run when the thread holds no mutex"
+      | None => "no such method " ++ m'
+      end
+  | CallExported Parent m' =>
+      match find_method (c_methods k) m' with
+      | Some mt => if uses_child mt then "parent call of " ++ m' ++ ", which calls a child object (lock order cycle)"
+                   else "parent call of " ++ m' ++ " (not exported / no path)"
+      | None => "no such method " ++ m'
+      end
+  | CallExported Child m' =>
+      if negb (is_none (eff cur a)) then "call on a child object while holding the mutex (lock order parent -> child)"
+      else "call on a child object: " ++ m' ++ " not found / not exported"
+  | Leak f => "a reference to guarded memory of field " ++ f ++ " escapes the critical section"
+  | Unknown pos => "unclassified construct at " ++ pos
+  | Defer _ => "Defer left after normalisation"
+  | Return => "Return left after normalisation"
+  end.
+
+Fixpoint explain_path (a : option mode) (p : path) : option string :=
+  match p with
+  | [] => if is_none a then None else Some "a path ends while the mutex is still held (missing Unlock)"
+  | e :: p' => match check_ev k cur a e with
+               | Some a' => explain_path a' p'
+               | None => Some (explain_ev a e)
+               end
+  end.
+
+Definition explain_method : list string :=
+  (if has_paths cur then [] else ["method has no path"]) ++
+  (if m_exported cur && negb (is_none (m_requires cur)) then ["exported method with a caller-holds contract"] else []) ++
+  flat_map (fun p => match explain_path None (norm p) with Some s => [s] | None => [] end) (m_paths cur).
+End Explain.
+
+Fixpoint dedup (l : list string) : list string :=
+  match l with
+  | [] => []
+  | x :: l' => if mem x l' then dedup l' else x :: dedup l'
+  end.
+
+(* (class, method, reasons) for every method that disc_ok rejects *)
+Definition disc_report (p : program) : list (string * string * list string) :=
+  flat_map (fun k =>
+    (if disjoint (c_guarded k) (c_immutable k) then [] else [(c_name k, "(class)", ["a field is listed both guarded and immutable"])]) ++
+    flat_map (fun mt => if method_ok k mt then [] else [(c_name k, m_name mt, dedup (explain_method k mt))]) (c_methods k)) p.
+
+Lemma disc_report_nil p : disc_report p = [] -> disc_ok p = true.
+Proof.
+  unfold disc_report, disc_ok. induction p as [|k p IH]; simpl; [reflexivity|].
+  intro H. apply app_eq_nil in H. destruct H as [H1 H2]. apply app_eq_nil in H1. destruct H1 as [Hd Hm].
+  rewrite (IH H2), andb_true_r. unfold class_ok.
+  destruct (disjoint (c_guarded k) (c_immutable k)); [|discriminate]. simpl.
+  clear - Hm. induction (c_methods k) as [|mt ms IHm]; simpl in *; [reflexivity|].
+  apply app_eq_nil in Hm. destruct Hm as [Hx Hy].
+  destruct (method_ok k mt); [|discriminate]. simpl. auto.
+Qed.
+
+(* ---------------- two-phase shape (=> every call is atomic: serializability clause) ----------------
+   A thread is in phase Grow until its first Release inside a top-level call, then in phase Shrink.  Two-phase
+   locking: no Acquire in phase Shrink.  A call of a method that is not lock-free (it, or something it calls,
+   acquires and releases) is treated as Acquire-then-Release: allowed in phase Grow only, and the caller continues in
+   phase Shrink.  With disc_ok (every access is covered by the mutex) two-phase calls are conflict-serializable. *)
+Inductive phase := Grow | Shrink.
+
+Fixpoint lock_free (fuel : nat) (k : class) (m : string) : bool :=
+  match fuel with
+  | 0 => false
+  | S fuel' =>
+      match find_method (c_methods k) m with
+      | None => false
+      | Some mt =>
+          forallb (fun p => forallb (fun e =>
+            match e with
+            | Read _ | Write _ => true
+            | CallInternal m' | CallExported _ m' => lock_free fuel' k m'
+            | _ => false
+            end) (norm p)) (m_paths mt)
+      end
+  end.
+
+Definition lf_fuel (k : class) : nat := S (List.length (c_methods k)).
+
+Definition tp_ev (k : class) (ph : phase) (e : ev) : option phase :=
+  match e with
+  | Acquire _ => match ph with Grow => Some Grow | Shrink => None end
+  | Release _ => Some Shrink
+  | Read _ | Write _ => Some ph
+  | CallInternal m' | CallExported _ m' =>
+      if lock_free (lf_fuel k) k m' then Some ph
+      else match ph with Grow => Some Shrink | Shrink => None end
+  | _ => None
+  end.
+
+Fixpoint tp_path (k : class) (ph : phase) (p : path) : bool :=
+  match p with
+  | [] => true
+  | e :: p' => match tp_ev k ph e with Some ph' => tp_path k ph' p' | None => false end
+  end.
+
+Fixpoint calls_of (p : path) : list string :=
+  match p with
+  | [] => []
+  | CallInternal m :: p' | CallExported _ m :: p' => m :: calls_of p'
+  | _ :: p' => calls_of p'
+  end.
+
+(* excl: exported methods (class, name) for which atomicity is NOT claimed (known findings); they may not be called
+   by any method for which it is claimed *)
+Definition excluded (excl : list (string * string)) (c m : string) : bool :=
+  existsb (fun cm => String.eqb (fst cm) c && String.eqb (snd cm) m) excl.
+
+Definition tp_method (excl : list (string * string)) (k : class) (mt : method) : bool :=
+  excluded excl (c_name k) (m_name mt) ||
+  forallb (fun p => tp_path k Grow (norm p) &&
+                    forallb (fun m' => negb (excluded excl (c_name k) m')) (calls_of (norm p))) (m_paths mt).
+
+Definition atomic_ok (excl : list (string * string)) (p : program) : bool :=
+  forallb (fun k => forallb (tp_method excl k) (c_methods k)) p.
+
+Definition atomic_report (excl : list (string * string)) (p : program) : list (string * string) :=
+  flat_map (fun k => flat_map (fun mt => if tp_method excl k mt then [] else [(c_name k, m_name mt)]) (c_methods k)) p.
+
+(* THE checker *)
+Definition lock_ok_excl (excl : list (string * string)) (p : program) : bool := disc_ok p && atomic_ok excl p.
+Definition lock_ok (p : program) : bool := lock_ok_excl [] p.
